@@ -345,6 +345,67 @@ def polarity(run, rng, tier, conds, comp, tres, horizons):
     run.coverage['polarity_constraints_run'] = n
 
 
+def _copied_job(args):
+    text, horizons = args
+    r = rt.compile_cnl(DECL + text)
+    if r[0] != 'ok':
+        return {'rejected': str(r[1])[:200]}
+    rules = [l for l in r[1].split('\n') if l.startswith('fired(')]
+    if not rules:
+        return {'program': r[1], 'err': 'no fired rule'}
+    res = {}
+    for h in horizons:
+        prog = '#program always.\n{alpha(1)}. {beta(1)}.\n' + '\n'.join(rules) + '\n#show alpha/1. #show beta/1. #show fired/1.\n'
+        t = tel.run_telingo(prog, h)
+        if t[0] != 'ok':
+            return {'err': t[1], 'rules': rules}
+        table = {}
+        for model in t[1]:
+            key = tuple((('alpha(1)' in st), ('beta(1)' in st)) for st in model)
+            table[key] = [('fired(1)' in st) for st in model]
+        res[h] = table
+    return {'ok': res, 'rules': rules}
+
+
+def copied_clauses(run, rng, tier, horizons):
+    """a prefixed occurrence in a sentence whose proposition is COPIED (one rule per listed value / a range): every derived rule
+    keeps the prefix — `previously` = in the state before, `initially` = in the first state"""
+    jobs, forms = [], []
+    for pfx in ('previously', 'initially'):
+        for neg in (False, True):
+            for wh in ('where X is one of 1, 2', 'where X is one of 2, 1', 'where X ranges from 1 to 2'):
+                for e, art in ((0, 'an alpha'), (1, 'a beta')):
+                    text = (f'Whenever there is {"not " if neg else ""}{pfx} {art} with id X, then we must have a fired with id X, {wh}.')
+                    forms.append((pfx, neg, wh, e))
+                    jobs.append((text, [h for h in horizons if h <= 3]))
+    results = rt.pmap(_copied_job, jobs, chunksize=1)
+    for (pfx, neg, wh, e), (text, _), r in zip(forms, jobs, results):
+        key = f'{"not-" if neg else ""}{pfx}/{"range" if "ranges" in wh else "one-of"}'
+        run.count(('copied-clause', text))
+        replay = {'cnl': DECL + text, 'rules': r.get('rules')}
+        if 'rejected' in r:
+            run.violation(f'rejected/copied-clause/{key}', f'rejected: {r["rejected"][:150]}', replay)
+            continue
+        if 'err' in r:
+            run.violation(f'telingo-error/copied-clause/{key}', f'telingo failed on {r.get("rules")!r}: {str(r["err"])[:200]}', replay)
+            continue
+        bad = None
+        for h, table in r['ok'].items():
+            for tr, fired in table.items():
+                run.coverage['evaluations'] += 1
+                expect = [(((i > 0 and tr[i - 1][e]) if pfx == 'previously' else tr[0][e]) != neg) for i in range(len(tr))]
+                if expect != fired:
+                    bad = (tr, fired, expect)
+                    break
+            if bad:
+                break
+        if bad:
+            tr, fired, expect = bad
+            run.violation(f'meaning/copied-clause/{key}', f'on trace {[list(x) for x in tr]} the rules {r["rules"]!r} derive fired(1) at '
+                          f'{[i for i, x in enumerate(fired) if x]} but the clause holds at {[i for i, x in enumerate(expect) if x]}',
+                          dict(replay, trace=[list(x) for x in tr]))
+
+
 def main(tier):
     run = common.Run(PROP, tier)
     rng = random.Random(run.seed)
@@ -497,6 +558,7 @@ def main(tier):
             break
     multi_clause(run, rng, tier, horizons)
     polarity(run, rng, tier, conds, comp, tres, horizons)
+    copied_clauses(run, rng, tier, horizons)
     run.coverage['conditions'] = stats
     run.coverage['exhaustive'] = True
     for (t, p, kind), c in list(zip(conds, comp))[:3] + list(zip(conds, comp))[-2:]:
